@@ -8,6 +8,7 @@ import (
 	"runtime/debug"
 	"testing"
 
+	"github.com/B1NARY-GR0UP/originium"
 	"github.com/B1NARY-GR0UP/originium/table"
 	"github.com/B1NARY-GR0UP/originium/types"
 	"github.com/B1NARY-GR0UP/originium/wal"
@@ -160,7 +161,14 @@ func RunCodec(t *testing.T, c *CodecCase, trace bool) *work.RunOut {
 	keep := func(what string, b []byte) {
 		holds = append(holds, &held{what: what, live: b, copy: bytes.Clone(b)})
 	}
+	var lms []*originium.VerifLM
+	reg := func(l *originium.VerifLM) { lms = append(lms, l) }
 	opt := simrt.Options{Seed: c.Seed, Strategy: c.Sim.Strategy, StickyP: c.Sim.StickyP, PCTDepth: c.Sim.PCTDepth, Dir: dir, PoolSim: true, Trace: trace,
+		Teardown: func(*simrt.Sim) {
+			for _, l := range lms {
+				func() { defer func() { recover() }(); l.Stop() }()
+			}
+		},
 		OnStep: func(s *simrt.Sim) string {
 			for _, h := range holds {
 				evals++
@@ -187,7 +195,7 @@ func RunCodec(t *testing.T, c *CodecCase, trace bool) *work.RunOut {
 				}()
 				for oi, op := range ops {
 					s.Yield("op")
-					runCodecOp(s, dir, ti, oi, op, keep, add, ro)
+					runCodecOp(s, dir, ti, oi, op, keep, add, reg, ro)
 				}
 			})
 		}
@@ -269,7 +277,7 @@ func maxFieldLen(es []types.Entry) int {
 	return m
 }
 
-func runCodecOp(s *simrt.Sim, dir string, ti, oi int, op CodecOp, keep func(string, []byte), add func(string, string, string), ro *work.RunOut) {
+func runCodecOp(s *simrt.Sim, dir string, ti, oi int, op CodecOp, keep func(string, []byte), add func(string, string, string), reg func(*originium.VerifLM), ro *work.RunOut) {
 	var es []types.Entry
 	for _, e := range op.Entries {
 		es = append(es, e.entry())
@@ -389,53 +397,53 @@ func runCodecOp(s *simrt.Sim, dir string, ti, oi int, op CodecOp, keep func(stri
 		}
 		keep("table", b)
 		s.Yield("between")
-		// whole table: footer -> index -> data blocks
-		if len(b) < 40 {
-			add("round-trip", "table-short", "table.Build returned fewer than 40 bytes")
+		// whole table, read back by the engine's own reader: the bytes become a
+		// table file, recovery rebuilds the handle from it (footer, index, data),
+		// Tables() decodes the whole table and Lookup goes index -> one data block.
+		sub := fmt.Sprintf("%s/tb%d_%d", dir, ti, oi)
+		_ = os.MkdirAll(sub, 0o755)
+		if err := os.WriteFile(sub+"/0-0.db", b, 0o644); err != nil {
+			add("fatal", "table-write", err.Error())
 			return
 		}
-		var f table.Footer
-		if err := f.Decode(b[len(b)-40:]); err != nil {
-			add("round-trip", "table-footer", fmt.Sprintf("footer of built table: %v", err))
-			return
-		}
-		var ix2 table.Index
-		if int(f.IndexBlock.Offset+f.IndexBlock.Length) > len(b) {
-			add("round-trip", "table-index-range", "index block handle outside the table")
-			return
-		}
-		if err := ix2.Decode(b[f.IndexBlock.Offset : f.IndexBlock.Offset+f.IndexBlock.Length]); err != nil {
-			add("round-trip", "table-index", fmt.Sprintf("index of built table: %v", err))
-			return
-		}
-		if len(ix2.Entries) != len(ix.Entries) {
-			add("round-trip", "table-index", "decoded index differs from the one Build returned")
+		var tabs []originium.VerifTable
+		var misses []string
+		unreadable := ""
+		func() {
+			defer func() {
+				if r := recover(); r != nil {
+					unreadable = fmt.Sprint(r)
+				}
+			}()
+			base := originium.VerifNewLM(sub, originium.Config{L0TargetNum: 4, LevelRatio: 10, DataBlockByteThreshold: op.Block}, 0)
+			reg(base)
+			lm, _ := base.Recover()
+			tabs = lm.Tables()
+			step := 1 + len(es)/24
+			for i := 0; i < len(es); i += step {
+				got, ok := lm.Lookup(es[i].Key)
+				if !ok || got.Key != es[i].Key || got.Tombstone != es[i].Tombstone || got.Version != es[i].Version || !bytes.Equal(got.Value, es[i].Value) {
+					misses = append(misses, fmt.Sprintf("lookup of stored key #%d (%d-byte key): found=%v", i, len(es[i].Key), ok))
+				}
+			}
+		}()
+		if unreadable != "" {
+			add("round-trip", "table-unreadable"+sizeTag, "the engine cannot read back the table it built: "+firstLine(unreadable))
 			return
 		}
 		if len(ix.Entries) > 1 {
 			ro.Probes["multi_block_tables"]++
 		}
-		var all []types.Entry
-		for _, ie := range ix2.Entries {
-			var d table.Data
-			if err := d.Decode(b[ie.DataHandle.Offset : ie.DataHandle.Offset+ie.DataHandle.Length]); err != nil {
-				add("round-trip", "table-data-decode-error"+sizeTag, fmt.Sprintf("data block of built table: %v", err))
-				return
-			}
-			all = append(all, d.Entries...)
-		}
-		// the whole data region decodes as one block too (recovery reads it that way)
-		var whole table.Data
-		if err := whole.Decode(b[ix2.DataBlock.Offset : ix2.DataBlock.Offset+ix2.DataBlock.Length]); err != nil {
-			add("round-trip", "table-data-region"+sizeTag, fmt.Sprintf("data region of built table: %v", err))
+		ro.Probes["round_trips"]++
+		if len(tabs) != 1 {
+			add("round-trip", "table-count", fmt.Sprintf("one table file was written, recovery lists %d tables", len(tabs)))
 			return
 		}
-		ro.Probes["round_trips"]++
-		if ok, why := entriesEqual(all, es); !ok {
-			add("round-trip", "table"+sizeTag, "table round trip (block by block): "+why)
+		if ok, why := entriesEqual(tabs[0].Entries, es); !ok {
+			add("round-trip", "table"+sizeTag, "table round trip (Build -> file -> recovery -> whole-table read): "+why)
 		}
-		if ok, why := entriesEqual(whole.Entries, es); !ok {
-			add("round-trip", "table-region"+sizeTag, "table round trip (whole data region): "+why)
+		if len(misses) > 0 {
+			add("round-trip", "table-lookup"+sizeTag, "table round trip (Build -> file -> recovery -> index + block read): "+misses[0])
 		}
 	case "wal":
 		sub := fmt.Sprintf("%s/t%d", dir, ti)
@@ -469,4 +477,13 @@ func runCodecOp(s *simrt.Sim, dir string, ti, oi int, op CodecOp, keep func(stri
 		}
 		_ = w.Delete()
 	}
+}
+
+func firstLine(s string) string {
+	for i := 0; i < len(s); i++ {
+		if s[i] == '\n' {
+			return s[:i]
+		}
+	}
+	return s
 }
